@@ -46,6 +46,9 @@ def consuming(g):
     if h == "RecoverSkipRetry": return consuming(g[1])
     if h == "Labelled": return consuming(g[3])
     if h == "MapErr": return consuming(g[2])
+    if h == "Memo": return consuming(g[2])
+    if h in ("Rec", "RecDecl", "Boxed"): return consuming(g[1])
+    if h == "Pratt": return consuming(g[2])
     return False
 
 def it_item_consuming(i):
@@ -78,6 +81,12 @@ RECOVER = ["RecoverVia", "RecoverSkipUntil", "RecoverSkipRetry"]
 DECOR = ["Labelled", "MapErr"]
 CTX = ["WithCtx", "IgnoreWithCtx", "ThenWithCtx", "MapCtx", "JustCfg"]
 LEAVES = {"End", "Empty", "Any", "Just", "OneOf", "NoneOf", "Select", "Custom", "JustCfg"}
+sexp_G_HEADS = {"End", "Empty", "Any", "Just", "OneOf", "NoneOf", "Select", "Custom", "Map", "MapWith", "To", "Ignored",
+           "ToSpan", "ToSlice", "Filter", "TryMap", "TryMapWith", "Validate", "Then", "IgnoreThen", "ThenIgnore",
+           "DelimitedBy", "PaddedBy", "Group", "Or", "Choice", "ChoiceVec", "OrNot", "Not", "AndIs", "Rewind",
+           "RepUnit", "Collect", "CollectExactly", "Foldl", "Foldr", "FoldlWith", "FoldrWith", "RecoverVia",
+           "RecoverSkipUntil", "RecoverSkipRetry", "Labelled", "MapErr", "WithCtx", "IgnoreWithCtx", "ThenWithCtx",
+           "MapCtx", "JustCfg", "Memo", "Rec", "RecDecl", "Var", "Boxed", "Pratt"}
 
 class Gen:
     def __init__(self, rng, ctors, alpha=None, no_not=False, mw=None, slices=True):
@@ -180,7 +189,79 @@ class Gen:
         if c == "MapErr": return [c, self.k(), G()]
         if c == "WithCtx": return [c, self.val(), G()]
         if c == "MapCtx": return [c, self.fn1(), G()]
+        if c == "Pratt": return self.pratt()
+        if c == "Rec": return self.rec(d - 1)
+        if c == "Boxed": return [c, G()]
         raise AssertionError(c)
+
+    # ----- Pratt tables -----
+    PRATT_SYMS = [43, 45, 42, 94, 33, 126]      # + - * ^ ! ~
+    def pratt(self, nops=None):
+        atom = self.r.choice([["Just", [A]], ["OneOf", [A, B]], ["Just", [A]], ["To", 1, ["OneOf", [A, B, C]]]])
+        n = nops or self.r.choice([1, 2, 2, 3, 3, 4, 5, 6])
+        ops = []
+        for _ in range(n):
+            sym = self.r.choice(self.PRATT_SYMS)
+            bp = self.r.randint(1, 4)
+            kind = self.r.choice(["PInfix", "PInfix", "PInfix", "PPrefix", "PPostfix"])
+            og = ["Just", [sym]]
+            if kind == "PInfix": ops.append(["PInfix", self.r.randint(0, 1), bp, og, self.k()])
+            else: ops.append([kind, bp, og, self.k()])
+        return ["Pratt", self.r.choice(["vec", "tuple"]), atom, ops]
+
+    # ----- guarded recursion -----
+    def rec(self, d):
+        o, c, sep = self.r.sample([40, 41, 91, 93, 44, 59], 3)
+        leaf = self.r.choice([["Just", [A]], ["OneOf", [A, B]], "Any"]) if self.r.random() < 0.7 else self.g(max(d - 1, 0), True)
+        kind = self.r.random()
+        R = self.r.choice(["Rec", "Rec", "RecDecl"])
+        if kind < 0.3:      # nested delimiters
+            return [R, ["Or", ["DelimitedBy", ["Var", 0], ["Just", [o]], ["Just", [c]]], leaf]]
+        if kind < 0.5:      # right recursion: leaf (sep self)?
+            return [R, ["Then", leaf, ["OrNot", ["IgnoreThen", ["Just", [sep]], ["Var", 0]]]]]
+        if kind < 0.65:     # recursion under repetition: ( self* ) | leaf
+            return [R, ["Or", ["DelimitedBy", ["Collect", "CVec", ["IRep", ["Var", 0], 0, "inf"]], ["Just", [o]], ["Just", [c]]], leaf]]
+        if kind < 0.85:     # mutual recursion: outer = o inner c | leaf ; inner = outer (sep outer)*
+            inner = [self.r.choice(["Rec", "RecDecl"]), ["Then", ["Var", 1], ["Collect", "CVec", ["IRep", ["IgnoreThen", ["Just", [sep]], ["Var", 1]], 0, "inf"]]]]
+            return [R, ["Or", ["DelimitedBy", inner, ["Just", [o]], ["Just", [c]]], leaf]]
+        # recursion through map/try_map/labels
+        return [R, ["Or", ["Map", self.fn1(), ["Then", ["Just", [o]], ["ThenIgnore", ["Labelled", self.k(), 1, ["Var", 0]], ["Just", [c]]]]], leaf]]
+
+    def leftrec(self):
+        """expr = (expr op atom).memoized() | atom : terminates only thanks to memoization"""
+        op = self.r.choice([43, 45, 42])
+        atom = self.r.choice([["Just", [A]], ["OneOf", [A, B]]])
+        mid = 900 + self.r.randint(0, 50)
+        if self.r.random() < 0.5:
+            return ["Rec", ["Or", ["Memo", mid, ["Then", ["Var", 0], ["Then", ["Just", [op]], atom]]], atom]]
+        return ["Rec", ["Memo", mid, ["Or", ["Then", ["Var", 0], ["Then", ["Just", [op]], atom]], atom]]]
+
+    def memoize(self, g, prob=0.3, counter=None):
+        """wrap random sub-grammars (G positions only) in Memo with unique ids"""
+        counter = counter if counter is not None else [0]
+        def wrap(x):
+            if self.r.random() < prob:
+                counter[0] += 1
+                return ["Memo", counter[0], x]
+            return x
+        def walk(x):
+            if isinstance(x, str): return wrap(x) if x in LEAVES else x
+            if not isinstance(x, list) or not x: return x
+            h = x[0]
+            if not isinstance(h, str): return [walk(y) for y in x]
+            if h in sexp_G_HEADS:
+                return wrap([h] + [walk_arg(h, i, a) for i, a in enumerate(x[1:])])
+            if h in ("IRep", "ISep", "IEnum", "IMap", "IMapWith", "IOrNot", "IRepCfg", "PInfix", "PPrefix", "PPostfix"):
+                return [h] + [walk_arg(h, i, a) for i, a in enumerate(x[1:])]
+            return x
+        def walk_arg(h, i, a):
+            if isinstance(a, list) and a and isinstance(a[0], str) and (a[0] in sexp_G_HEADS or a[0] in ("IRep", "ISep", "IEnum", "IMap", "IMapWith", "IOrNot", "IRepCfg", "PInfix", "PPrefix", "PPostfix")):
+                return walk(a)
+            if isinstance(a, str) and a in ("End", "Empty", "Any"): return wrap(a)
+            if h in ("Group", "Choice", "ChoiceVec") and isinstance(a, list): return [walk(y) for y in a]
+            if h == "Pratt" and i == 2 and isinstance(a, list): return [walk(y) for y in a]
+            return a
+        return walk(g)
 
     def bounds(self):
         lo = self.r.choice([0, 0, 1, 1, 2, 3])
@@ -263,7 +344,74 @@ def sample(rng, g, alpha, ctx=()):
         return [t for _ in range(rng.randint(1, 2)) for t in S(g[2])] + S(g[1])
     if h == "Labelled": return S(g[3])
     if h == "MapErr": return S(g[2])
+    if h == "Memo": return S(g[2])
+    if h == "Boxed": return S(g[1])
+    if h in ("Rec", "RecDecl"): return sample_rec(rng, g[1], alpha, ctx, [g[1]], rng.randint(0, 4))
+    if h == "Var": return []
+    if h == "Pratt": return sample_pratt(rng, g, alpha, ctx)
     return []
+
+def sample_rec(rng, body, alpha, ctx, envs, depth):
+    """sample with recursive references expanded `depth` times"""
+    def subst(x, lvl):
+        if isinstance(x, list) and x and x[0] == "Var":
+            k = x[1]
+            if depth <= 0 or k >= len(envs): return "Empty"
+            return ["__rec", k]
+        if isinstance(x, list): return [subst(y, lvl) for y in x]
+        return x
+    def S2(x, dep):
+        if isinstance(x, list) and x and x[0] == "__rec":
+            return sample_rec(rng, envs[x[1]], alpha, ctx, envs[x[1]:], dep - 1)
+        if isinstance(x, list) and x and x[0] in ("Rec", "RecDecl"):
+            return sample_rec(rng, x[1], alpha, ctx, [x[1]] + envs, dep)
+        return None
+    # expand lazily: replace Var by a marker handled through a patched sample
+    def go(x, dep):
+        if isinstance(x, list) and x and x[0] == "Var":
+            k = x[1]
+            if dep <= 0 or k >= len(envs): return []
+            return sample_rec(rng, envs[k], alpha, ctx, envs[k:], dep - 1)
+        if isinstance(x, list) and x and x[0] in ("Rec", "RecDecl"):
+            return sample_rec(rng, x[1], alpha, ctx, [x[1]] + envs, dep)
+        return None
+    return sample_with(rng, body, alpha, ctx, lambda x: go(x, depth))
+
+def sample_with(rng, g, alpha, ctx, hook):
+    """sample() with a hook that may override the sampling of a sub-grammar"""
+    r = hook(g)
+    if r is not None: return r
+    if not isinstance(g, list): return sample(rng, g, alpha, ctx)
+    h = g[0]
+    S = lambda x: sample_with(rng, x, alpha, ctx, hook)
+    if h in ("Then", "IgnoreThen", "ThenIgnore"): return S(g[1]) + S(g[2])
+    if h == "DelimitedBy": return S(g[2]) + S(g[1]) + S(g[3])
+    if h == "PaddedBy": return S(g[2]) + S(g[1]) + S(g[2])
+    if h == "Or": return S(rng.choice([g[1], g[2]]))
+    if h in ("Choice", "ChoiceVec"): return S(rng.choice(g[1])) if g[1] else []
+    if h == "OrNot": return S(g[1]) if rng.random() < 0.6 else []
+    if h in ("Map", "MapWith", "To", "Filter", "MapCtx", "MapErr", "Memo"): return S(g[2])
+    if h == "Labelled": return S(g[3])
+    if h in ("Ignored", "ToSpan", "ToSlice", "Boxed"): return S(g[1])
+    if h == "Collect":
+        i = g[2]
+        if i[0] == "IRep": return [t for _ in range(rng.randint(i[2], i[2] + 2)) for t in S(i[1])]
+    return sample(rng, g, alpha, ctx)
+
+def sample_pratt(rng, g, alpha, ctx):
+    atom, ops = g[2], g[3]
+    pre = [o for o in ops if o[0] == "PPrefix"]; post = [o for o in ops if o[0] == "PPostfix"]; inf = [o for o in ops if o[0] == "PInfix"]
+    def operand():
+        out = []
+        if pre and rng.random() < 0.3: out += sample(rng, rng.choice(pre)[2], alpha, ctx)
+        out += sample(rng, atom, alpha, ctx)
+        if post and rng.random() < 0.3: out += sample(rng, rng.choice(post)[2], alpha, ctx)
+        return out
+    out = operand()
+    for _ in range(rng.randint(0, 4)):
+        if not inf: break
+        out += sample(rng, rng.choice(inf)[3], alpha, ctx) + operand()
+    return out
 
 def val_toks(v):
     h = head(v)
